@@ -6,13 +6,44 @@ V = os.path.dirname(os.path.dirname(os.path.abspath(__file__)))
 p = os.path.join(V, "DESIGN.md")
 s = open(p).read()
 d = json.load(open(os.path.join(V, "lean/props.json")))
+# tie column: the harness generator modes each property's tie() actually runs (read from checklib/props.py);
+# quick column: seconds of the last quick run recorded in evidence/<id>.json
+src = open(os.path.join(V, "checklib/props.py")).read()
+ties = {}
+for m in re.finditer(r"^class (C\d\d)\(", src, re.M):
+    body = src[m.start():]
+    nxt = re.search(r"^class ", body[6:], re.M)
+    body = body[: nxt.start() + 6] if nxt else body
+    tie = re.search(r"def tie\(self.*?(?=\n    def |\Z)", body, re.S)
+    modes = []
+    if tie:
+        for c in re.finditer(r'tie_run\(stats, "(\w+)", \["([\w-]+)"((?:, "[\w-]+")*)', tie.group(0)):
+            extra = " ".join(re.findall(r'"([\w-]+)"', c.group(3)))
+            name = ("%s %s %s" % (c.group(1), c.group(2), extra)).strip()
+            if name not in modes:
+                modes.append(name)
+    ties[m.group(1)] = modes
+# classes that inherit their tie
+for pid, base in re.findall(r"^class (C\d\d)\((C\d\d)\)", src, re.M):
+    if not ties.get(pid):
+        ties[pid] = ties.get(base, [])
+secs = {}
+for pid in d:
+    try:
+        ev = json.load(open(os.path.join(V, "evidence", pid + ".json")))
+        t = ev.get("wall_s")
+        if t:
+            secs[pid] = "~%d s" % round(float(t))
+    except Exception:
+        pass
 out = []
 for ln in s.split("\n"):
     m = re.match(r"\| (C\d\d) \| ([^|]*) \| ([^|]*) \| ([^|]*) \| ([^|]*) \|$", ln)
     if m and m.group(1) in d and "~" in m.group(5):
         pid = m.group(1)
         th = ", ".join(t.split('.')[-1] for t in d[pid]["theorems"])
-        ln = "| %s | %s | %s | %s | %s |" % (pid, th, m.group(3).strip(), m.group(4).strip(), m.group(5).strip())
+        tie = ", ".join("`%s`" % x for x in ties.get(pid, [])) or m.group(3).strip()
+        ln = "| %s | %s | %s | %s | %s |" % (pid, th, tie, m.group(4).strip(), secs.get(pid, m.group(5).strip()))
     out.append(ln)
 s = "\n".join(out)
 t = open(os.path.join(V, "seeded/RESULTS.md")).read()
